@@ -94,6 +94,7 @@ def run_cases(check: str, tier: str, seed: int, cases: list[dict], out) -> None:
         ctx.inflate.reset()
         _core.LIVE_PROXIES.clear()
         _core.ALL_PROXIES.clear()
+        del _core.SEEN_STREAMS[:]
         if ctx.steps is not None:
             ctx.steps.begin_case(case.get("step_budget", default_budget))
         if use_mem:
@@ -114,6 +115,16 @@ def run_cases(check: str, tier: str, seed: int, cases: list[dict], out) -> None:
                 # not have closed a handle that belongs to the caller
                 import gc
 
+                # ... and so must closing them ("with VHDX(fh) as disk", disk.close()): the handle stays the caller's
+                closed_streams = 0
+                for s in _core.SEEN_STREAMS:
+                    try:
+                        s.close()
+                        closed_streams += 1
+                    except Exception:
+                        pass
+                del _core.SEEN_STREAMS[:]
+                res.setdefault("cnt", {})["streams_closed_before_handle_check"] = closed_streams
                 gc.collect()
                 closed = [p for p in _core.ALL_PROXIES if p.closed_by_callee]
                 res.setdefault("cnt", {})["handles_checked_after_drop"] = len(_core.ALL_PROXIES)
